@@ -277,10 +277,10 @@ pub fn build() -> Property {
                Non-trivial = padding in {9,10,15,16} or more than one word with the faulty index > 0.",
         assumptions: vec!["format-0 layout is recognised by the tool from the zero fill of the first slot: an empty format-0 payload has no words either way".into()],
         phases: vec![
-            Phase { name: "chunker", kind: PhaseKind::Gen { cases: (60000, 1000000), tape_len: 8, f: Box::new(chunk_case) }, threads: 16 },
-            Phase { name: "examined_once", kind: PhaseKind::Gen { cases: (10000, 200000), tape_len: 8, f: Box::new(examined_once_case) }, threads: 16 },
-            Phase { name: "overpadding_reset", kind: PhaseKind::Gen { cases: (800, 8000), tape_len: 8, f: Box::new(reset_case) }, threads: 16 },
-            Phase { name: "cli_data_view", kind: PhaseKind::Gen { cases: (500, 5000), tape_len: 8, f: Box::new(cli_view_case) }, threads: 16 },
+            Phase { name: "chunker", kind: PhaseKind::Gen { cases: (300000, 3000000), tape_len: 8, f: Box::new(chunk_case) }, threads: 16 },
+            Phase { name: "examined_once", kind: PhaseKind::Gen { cases: (100000, 1000000), tape_len: 8, f: Box::new(examined_once_case) }, threads: 16 },
+            Phase { name: "overpadding_reset", kind: PhaseKind::Gen { cases: (4000, 30000), tape_len: 8, f: Box::new(reset_case) }, threads: 16 },
+            Phase { name: "cli_data_view", kind: PhaseKind::Gen { cases: (2500, 15000), tape_len: 8, f: Box::new(cli_view_case) }, threads: 16 },
         ],
     }
 }
